@@ -381,7 +381,23 @@ def apply_rewrites(text, opts):
         if t2 != text:
             applied.append("closure tuple-pattern parameters desugared: |(a, b)| e -> |p| { let (a, b) = p; e }")
         text = t2
+    if opts.get("detuple"):
+        t2 = rw_detuple(text)
+        if t2 != text:
+            applied.append("destructuring assignment desugared: (a, b) = e; -> { let t = e; a = t.0; b = t.1; }")
+        text = t2
     return text, applied
+
+
+def rw_detuple(text):
+    """`(a, b) = EXPR;` (statement position, plain identifiers) -> block with positional projections.
+    Verus does not support destructuring assignment; the meaning is unchanged."""
+    pat = re.compile(r"(?m)^(\s*)\(\s*([A-Za-z_]\w*)\s*,\s*([A-Za-z_]\w*)\s*\)\s*=(?!=)\s*([^;]*);")
+
+    def sub(m):
+        ind, a, b, e = m.group(1), m.group(2), m.group(3), m.group(4)
+        return "%s{ let vx_tuple = %s; %s = vx_tuple.0; %s = vx_tuple.1; }" % (ind, e, a, b)
+    return pat.sub(sub, text)
 
 
 def parse_opts(words):
@@ -401,6 +417,8 @@ def parse_opts(words):
             opts["selfas"] = w[7:]
         elif w == "untuple":
             opts["untuple"] = True
+        elif w == "detuple":
+            opts["detuple"] = True
         elif w.startswith("generics="):
             opts["generics"] = w[9:].replace(":", ": ").replace(",", ", ")
         else:
@@ -523,7 +541,7 @@ def generate(template_path, twin=False):
         body = s.text[ob:cb + 1]
         orig_text = sig + body
         rewrites = []
-        if kind == "prove" and (opts.get("selfas") or opts.get("untuple")):
+        if kind == "prove" and (opts.get("selfas") or opts.get("untuple") or opts.get("detuple")):
             whole, rewrites = apply_rewrites(orig_text, opts)
             wbl = blank_noncode(whole)
             wob = first_open_brace(wbl, wbl.index("fn "))
@@ -632,7 +650,7 @@ def generate(template_path, twin=False):
         report["items"].append({"file": rel, "item": item, "role": "prove", "line": line_no,
                                 "body_sha256": hashlib.sha256(orig_text.encode()).hexdigest(),
                                 "loc": body.count("\n") + 1, "rename": opts.get("rename"),
-                                "rewrites": rewrites, "opts": {k: opts[k] for k in ("selfas", "untuple") if k in opts},
+                                "rewrites": rewrites, "opts": {k: opts[k] for k in ("selfas", "untuple", "detuple") if k in opts},
                                 "contract": contract.strip()})
     gen = "\n".join(out)
     report["dropped"] = [
